@@ -386,6 +386,76 @@ def retort_for(g, t, mode=None):
     return Retort(recipe=recipe, debug_trail=mode or DebugTrail.ALL)
 
 
+def mutable_default_values(rep):
+    """models whose omitted fields have a mutable container as default VALUE (NamedTuple / attrs / plain __init__; a
+    dataclass refuses such defaults): the loader builds the default from its literal, so two results share no container
+    with each other or with the retort, and repeating the call after one result has been changed gives the same value"""
+    from typing import Any, Dict, List, NamedTuple, Set
+
+    import attrs
+    from adaptix import DebugTrail, Retort
+
+    class NT(NamedTuple):
+        a: int
+        tags: List[str] = []             # noqa: RUF012
+        opts: Dict[str, Any] = {"k": [1]}   # noqa: RUF012
+
+    @attrs.define
+    class AT:
+        a: int
+        seen: Set[int] = {1, 2}          # noqa: RUF012
+        rows: List[Any] = [[0], {"x": 1}]   # noqa: RUF012
+
+    class PL:
+        def __init__(self, a: int, argv: List[str] = ["-v"], env: Dict[str, Any] = {}):   # noqa: B006
+            self.a, self.argv, self.env = a, argv, env
+
+        def __eq__(self, o):
+            return isinstance(o, PL) and (self.a, self.argv, self.env) == (o.a, o.argv, o.env)
+
+        def __repr__(self):
+            return f"PL({self.a!r}, {self.argv!r}, {self.env!r})"
+
+    def containers(o, acc):
+        vals = list(o) if isinstance(o, (tuple, list, set)) else list(o.values()) if isinstance(o, dict) else \
+            [getattr(o, f) for f in ("a", "tags", "opts", "seen", "rows", "argv", "env") if hasattr(o, f)]
+        if isinstance(o, (list, dict, set)):
+            acc.append(o)
+        for v in vals:
+            if isinstance(v, (list, dict, set, tuple)):
+                containers(v, acc)
+        return acc
+
+    n = 0
+    for mode in DebugTrail:
+        for cls, fields in ((NT, ("tags", "opts")), (AT, ("seen", "rows")), (PL, ("argv", "env"))):
+            rt = Retort(debug_trail=mode)
+            n += 3
+            first = rt.load({"a": 1}, cls)
+            snapshot = repr(first)
+            second = rt.load({"a": 1}, cls)
+            shared = [c for c in containers(first, []) if any(c is d for d in containers(second, []))]
+            if shared:
+                rep.violation(f"default-value:shared:{cls.__name__}", "property-violated",
+                              {"what": "two results of load share a mutable container built for an omitted field's default value",
+                               "model": cls.__name__, "mode": mode.name, "shared": repr(shared)[:200]})
+                continue
+            for f in fields:                     # change the first result in place
+                c = getattr(first, f)
+                if isinstance(c, list):
+                    c.append("changed")
+                elif isinstance(c, dict):
+                    c["changed"] = 1
+                else:
+                    c.add(99)
+            third = rt.load({"a": 1}, cls)
+            if repr(third) != snapshot or third != second:
+                rep.violation(f"default-value:repeat:{cls.__name__}", "property-violated",
+                              {"what": "repeating load with an equal argument gives a different result after an earlier result was changed",
+                               "model": cls.__name__, "mode": mode.name, "first_call": snapshot, "later_call": repr(third)})
+    return n
+
+
 def run(rep, tier, seed):
     from adaptix import DebugTrail
     from adaptix.conversion import get_converter
@@ -409,6 +479,7 @@ def run(rep, tier, seed):
                     stats["no_plan"] += 1
         if len(samples) < 3 and ti % 37 == 5 and meta:
             samples.append({k: meta[-1][k] for k in ("op", "type", "argument", "graph")})
+    stats["default_value_checks"] = mutable_default_values(rep)
     ev = CoqEval(PID, "From AV Require Import Model.Heap Model.HeapShow.",
                  "(fun c => show_exec (fst (fst c)) (snd (fst c)) (snd c))", shard=200)
     for idx, got in ev.compare(cases):
